@@ -174,6 +174,13 @@ def make_layout(rng, nvol=None, home_mode=None, xdg=None, uid=None, trash_states
     if nvol is None:
         nvol = rng.choice([0, 1, 1, 2, 3])
     cand = ['/media/v1', '/media/v2', '/mnt/data']
+    # mount points are named by users and desktop environments: labels with blanks, brackets, pluses, bars ... (characters that
+    # are special to regular expressions, globs and shells) occur in a quarter of the worlds
+    odd = ['Backup (2)', 'disk[1]', 'C++', 'a|b', 'x.y', 'sp ace', 'é', 'USB$1', '^caret', 'q?', 'star*', 'back\\slash', '{b}', 'per%cent']
+    if rng.random() < 0.25:
+        cand = [posixpath.dirname(c) + '/' + rng.choice(odd) if rng.random() < 0.7 else c for c in cand]
+        if len(set(cand)) < len(cand):
+            cand = ['/media/v1', '/media/v2', '/mnt/data']
     vols = cand[:nvol]
     if nested is None:
         nested = nvol >= 1 and rng.random() < 0.25
